@@ -268,7 +268,7 @@ func rawJSONFromMarshal(c *Check) {
 	p := c.P
 	n := 0
 	for _, fn := range p.AllRepoFuncs() {
-		if FuncPkgPath(fn) != ModPath+"/"+pkgSshd || fn.Blocks == nil {
+		if !p.InDaemon(fn) || fn.Blocks == nil {
 			continue
 		}
 		r := NewResolver(p)
@@ -303,7 +303,7 @@ func rawJSONFromMarshal(c *Check) {
 			c.Cond(okAll, "unconditional-emit", "raw JSON built in "+fn.Name(), p.InstrPos(in), "output of json.Marshal", "raw JSON attached to an event is built from "+what+", not by a JSON marshaller: client-chosen text in it is not escaped, a name containing a quote or a backslash makes the event unencodable and the failed attempt goes unrecorded")
 		})
 	}
-	c.Floor("raw JSON conversions in the sshd processor", 1, n)
+	c.Floor("raw JSON conversions in the daemon", 1, n)
 }
 
 // usesRegex: fn calls FindStringSubmatch on the regex variable.
